@@ -140,6 +140,17 @@ def c19_1(ctx: Ctx) -> RuleResult:
         ok = (bool(lowered) and len(uses) == len(lowered)) or delegated
         res.add(f, f.node, "is_supported compares the lower-cased method name (or delegates to a lookup that does)", ok,
                 "" if ok else f"`{show(rt, 90)}` compares the method name case-sensitively", construct=f"{f.cls.name if f.cls else ''}.is_supported")
+        if delegated:
+            # a delegating implementation hands the name over as received: `plugin/method` is resolved by the lookup
+            # it delegates to (only the named plug-in is consulted); cutting components off turns it into a discovery
+            pterm = ("param", f.qualname, pname)
+            for s_ in subterms(rt):
+                if s_[0] == "call" and s_[1][0] == "attr" and s_[1][2] == "is_supported":
+                    args = [a for a in list(s_[2]) + [v for _k, v in s_[3]] if contains(a, lambda y: y == pterm)]
+                    ok2 = bool(args) and all(a == pterm or (a[0] == "call" and a[1][0] == "attr" and a[1][2] in ("lower", "casefold") and a[1][1] == pterm) for a in args)
+                    res.add(f, f.node, "a delegating is_supported passes the method name on unchanged (the named-plug-in form is resolved by the lookup it delegates to)", ok2,
+                            "" if ok2 else f"the lookup is asked for `{show(args[0], 70) if args else '?'}` instead of the requested name: `plugin/method` requests are answered by discovery",
+                            construct=f"{f.cls.name if f.cls else ''}.is_supported: delegated name")
     if n_keys < 4:
         raise AnalysisError(f"only {n_keys} registry key uses found")
     res.floor = 8
@@ -433,5 +444,12 @@ def c19_3(ctx: Ctx) -> RuleResult:
             res.add(m, n, "the manager keeps no state besides the registry, written only by __init__ / add_plugin (lookups are side-effect free)", ok,
                     "" if ok else f"`{m.name}` writes `self.{fld}`: lookups depend on (and change) hidden state, so the same request can resolve differently after registrations",
                     construct=f"{m.name}: writes self.{fld}")
+    # memoising decorators on the manager's methods are hidden state as well (results of earlier lookups survive registrations)
+    for m in c.methods.values():
+        memo = [d for d in m.decorators if d.split("(")[0].split(".")[-1] in ("cache", "lru_cache", "cached_property", "memoize")]
+        ok = not memo
+        res.add(m, m.node, "the manager's methods are not memoised (a lookup is answered from the registry as it is now)", ok,
+                "" if ok else f"`{m.name}` is decorated with `{memo[0]}`: answers given before a registration are repeated after it (is_supported and get_plugin disagree)",
+                construct=f"{m.name}: not memoised")
     res.floor = 5
     return res
